@@ -1170,6 +1170,8 @@ class CircuitTemplate(AbstractBaseTemplate):
 
                 # get all requested node variables
                 target_nodes = self.get_nodes(out_nodes, var_identifier=(out_op, out_var))
+                if not target_nodes:
+                    raise PyRatesException(f'Output variable {out} has not been found in the network.')
 
                 if len(target_nodes) == 1:
 
@@ -1193,6 +1195,8 @@ class CircuitTemplate(AbstractBaseTemplate):
 
             *out_nodes, out_op, out_var = outputs.split('/')
             target_nodes = self.get_nodes(out_nodes, var_identifier=(out_op, out_var))
+            if not target_nodes:
+                raise PyRatesException(f'Output variable {outputs} has not been found in the network.')
 
             # extract index for single output node
             for t in target_nodes:
